@@ -604,9 +604,10 @@ class DbusViewMonitor(Monitor):
             sq = world.bus_call(proc, PATH, 'send_bundle_get_queue', iface=IFACE)
             idle = world.bus_call(proc, PATH, 'is_sess_idle', iface=IFACE)
             state = world.bus_call(proc, PATH, 'get_session_state', iface=IFACE)
+            sparm = world.bus_call(proc, PATH, 'get_session_parameters', iface=IFACE)
             out.extend(self._drain(world, proc))
-            if rq[0] != 'ok' or sq[0] != 'ok' or idle[0] != 'ok' or state[0] != 'ok':
-                out.append(self._v(world, 'query-failed', dict(), '%s: %r %r %r %r' % (side, rq, sq, idle, state)))
+            if rq[0] != 'ok' or sq[0] != 'ok' or idle[0] != 'ok' or state[0] != 'ok' or sparm[0] != 'ok':
+                out.append(self._v(world, 'query-failed', dict(), '%s: %r %r %r %r %r' % (side, rq, sq, idle, state, sparm)))
                 continue
             want_rq = sorted(b for (b, _l) in self.announced[side] if b not in self.popped[side])
             if sorted(str(x) for x in rq[1]) != want_rq:
